@@ -19,12 +19,14 @@ inductive PopKindR (s : State) (mb : Nat) (s' : State) (out : PopOut) : Prop
   | retransSplit (g : Frame) (rest : List Frame) (hq : s.retransQ = g :: rest)
       (h1 : s' = { s with retransQ := { g with data := g.data.drop (g.maxDataLen s.sid mb), offset := g.offset + g.maxDataLen s.sid mb } :: rest })
       (h2 : out.frame = some { offset := g.offset, data := g.data.take (g.maxDataLen s.sid mb), fin := false, dataLenPresent := g.dataLenPresent })
+      (hn : g.maxDataLen s.sid mb ≠ 0) (hfit : mb < g.length s.sid)
   | finOnly (h1 : s' = { s with finSent := true })
       (h2 : out.frame = some { offset := s.writeOffset, data := [], fin := true, dataLenPresent := true })
+      (hd : s.dataForWriting = []) (hnf : s.nextFrame = none) (hlt : s.writeOffset < s.reliableOffset)
   | newData (f0 : Frame) (s1 : State) (hq : s.retransQ = []) (hlt : s.writeOffset < s.reliableOffset)
       (hok : PopNewOk s s1 f0) (hlen : f0.data.length ≤ s.reliableOffset - s.writeOffset)
       (hbuf : ∀ nf, s.nextFrame = some nf → s1.dataForWriting = s.dataForWriting ∧ f0.data ++ nfData s1 = nf.data)
-      (fin : Bool)
+      (fin : Bool) (hfin : fin = false)   -- a stream that is being reset never gets a FIN on new data (a7958da)
       (h1 : s' = { s1 with writeOffset := s.writeOffset + f0.data.length, finSent := s.finSent || fin })
       (h2 : out.frame = some { f0 with fin := fin })
 
@@ -54,7 +56,7 @@ theorem popInner_ra (s : State) (mb win : Nat) (nb : Bool) (hra : RA s) (hmb : m
         obtain ⟨_, hfit, hn, hnew, hf'⟩ := maybeSplitOff_some hsp
         subst hnew hf'
         simp only [Option.isSome_some, Bool.true_or, ↓reduceIte]
-        exact .retransSplit g rest hq rfl rfl
+        exact .retransSplit g rest hq rfl rfl hn hfit
   | nil =>
     simp only [List.isEmpty_nil, Bool.and_true, Bool.not_true, Bool.false_eq_true, ↓reduceIte]
     by_cases hge : s.writeOffset ≥ s.reliableOffset
@@ -67,7 +69,7 @@ theorem popInner_ra (s : State) (mb win : Nat) (nb : Bool) (hra : RA s) (hmb : m
         simp only [hd, hn, List.isEmpty_nil, Option.isNone_none, Bool.and_self, ↓reduceIte]
         by_cases hf : s.finishedWriting = true ∧ s.finSent = false
         · simp only [hf.1, hf.2, Bool.not_false, Bool.and_self, ↓reduceIte]
-          exact .finOnly (by cases s; simp_all) (by simp)
+          exact .finOnly (by cases s; simp_all) (by simp) hd hn hlt
         · have : (s.finishedWriting && !s.finSent) = false := by
             cases h1 : s.finishedWriting <;> cases h2 : s.finSent <;> simp_all
           simp only [this, Bool.false_eq_true, ↓reduceIte]
@@ -98,10 +100,11 @@ theorem popInner_ra (s : State) (mb win : Nat) (nb : Bool) (hra : RA s) (hmb : m
             have hfw : s1.finishedWriting = s.finishedWriting := by rw [hs1]
             have hfs : s1.finSent = s.finSent := by rw [hs1]
             have hwo : s1.writeOffset = s.writeOffset := by rw [hs1]
-            refine .newData f0 s1 hq hlt hok (by omega) hbuf (s.finishedWriting && s1.dataForWriting.isEmpty && s1.nextFrame.isNone && !s.finSent) ?_ ?_
-            · rw [hfw, hfs, hwo]
-              cases hc : (s.finishedWriting && s1.dataForWriting.isEmpty && s1.nextFrame.isNone && !s.finSent) <;> simp
-            · rw [hfw, hfs]
+            have hrs : s1.resetErr.isNone = false := by
+              rw [hs1]; cases hre : s.resetErr <;> simp_all
+            refine .newData f0 s1 hq hlt hok (by omega) hbuf false rfl ?_ ?_
+            · rw [hwo, hrs]; simp [hfs]
+            · rw [hrs]; simp
 
 def DataFaithful (W : Bytes) (f : Frame) : Prop := f.data <+: W.drop f.offset
 
@@ -216,7 +219,8 @@ theorem acked_gen (s : State) (i : Nat) :
 theorem lost_gen (s : State) (i : Nat) :
     ∃ o' q' no c d, (lost s i).1 = { s with outstanding := o', retransQ := q', numOutstanding := no, completed := c, dead := d } ∧
       (∀ e ∈ o', e ∈ s.outstanding) ∧
-      (∀ g ∈ q', g ∈ s.retransQ ∨ ∃ e ∈ s.outstanding, g.offset = e.2.offset ∧ g.data <+: e.2.data) := by
+      (∀ g ∈ q', g ∈ s.retransQ ∨ ∃ e ∈ s.outstanding, g.offset = e.2.offset ∧ g.data <+: e.2.data ∧
+          (g.fin = true → e.2.fin = true ∧ g.data = e.2.data)) := by
   unfold lost
   cases hf : lookupOutstanding s i with
   | none => exact ⟨s.outstanding, s.retransQ, s.numOutstanding, s.completed, s.dead, rfl, fun e he => he, fun g hg => .inl hg⟩
@@ -239,8 +243,8 @@ theorem lost_gen (s : State) (i : Nat) :
           · refine .inr ⟨e0, hmem, ?_⟩
             rw [he0]
             split
-            · exact ⟨rfl, List.take_prefix _ _⟩
-            · exact ⟨rfl, List.prefix_refl _⟩
+            · exact ⟨rfl, List.take_prefix _ _, fun hh => by simp at hh⟩
+            · exact ⟨rfl, List.prefix_refl _, fun hh => ⟨hh, rfl⟩⟩
 
 /-- `writeIter` in any state: `nextFrame` keeps its offset and only grows, nothing else `RInv` looks at
     changes except `dataForWriting` and `pending` -/
@@ -315,7 +319,7 @@ theorem rinv_lost {s : State} (h : RInv s) (i : Nat) : RInv (lost s i).1 := by
   obtain ⟨o', q', no, c, d, hs', ho, hq⟩ := lost_gen s i
   rw [hs']
   refine h.transfer rfl rfl ho (fun g hg => ?_) rfl rfl rfl rfl rfl rfl rfl rfl
-  rcases hq g hg with hg | ⟨e, he, hoff, hpre⟩
+  rcases hq g hg with hg | ⟨e, he, hoff, hpre, _⟩
   · exact h.q g hg
   · have := h.out e he
     unfold DataFaithful at *
@@ -361,6 +365,19 @@ theorem trimFrame_some {ro : Nat} {f g : Frame} (h : trimFrame ro f = some g) :
     · simp only [Option.some.injEq] at h; subst h
       exact ⟨rfl, rfl, List.prefix_refl _, by omega, by omega⟩
 
+theorem trimFrameQ_some {ro : Nat} {f g : Frame} (h : trimFrameQ ro f = some g) :
+    g.offset = f.offset ∧ g.data <+: f.data ∧ f.offset < ro ∧ g.data.length ≤ f.data.length ∧
+    (g.fin = true → g = f) := by
+  unfold trimFrameQ at h
+  split at h
+  · simp at h
+  · rename_i h1
+    split at h
+    · simp only [Option.some.injEq] at h; subst h
+      exact ⟨rfl, List.take_prefix _ _, by omega, by simp only [List.length_take]; omega, fun hh => by simp at hh⟩
+    · simp only [Option.some.injEq] at h; subst h
+      exact ⟨rfl, List.prefix_refl _, by omega, Nat.le_refl _, fun _ => rfl⟩
+
 theorem rinv_cancel {s : State} (h : RInv s) (c : Nat) : RInv (cancelWrite s c).1 := by
   unfold cancelWrite
   split
@@ -389,7 +406,7 @@ theorem rinv_cancel {s : State} (h : RInv s) (c : Nat) : RInv (cancelWrite s c).
     refine ⟨h.em, h.out, fun g hg => ?_, fun g hg => ?_, fun hl' => ?_, fun _ => ⟨fun nf' hnf' => ?_, fun hlt => ?_⟩⟩
     · simp only [List.mem_filterMap] at hg
       obtain ⟨g0, hg0, ht⟩ := hg
-      obtain ⟨h1, _, h3, _, _⟩ := trimFrame_some ht
+      obtain ⟨h1, h3, _, _, _⟩ := trimFrameQ_some ht
       have := h.q g0 hg0
       unfold DataFaithful at *
       rw [h1]; exact h3.trans this
@@ -631,7 +648,7 @@ theorem rinv_pop {s : State} (h : RInv s) (mb w : Nat) (nb : Bool) (hmb : mb ≤
       | retransWhole g rest hq h1 h2 => rw [pop_some h2, h1]; exact rinv_retransWhole h hq
       | retransSplit g rest hq h1 h2 => rw [pop_some h2, h1]; exact rinv_retransSplit h _ hq
       | finOnly h1 h2 => rw [pop_some h2, h1]; exact rinv_finOnly h
-      | newData f0 s1 hq hlt hok hlen hbuf fin h1 h2 => rw [pop_some h2, h1]; exact rinv_newData_ra h hra hlt hok hlen hbuf fin
+      | newData f0 s1 hq hlt hok hlen hbuf fin hfin h1 h2 => rw [pop_some h2, h1]; exact rinv_newData_ra h hra hlt hok hlen hbuf fin
     · have := popInner_quiet s mb w nb hl hra
       have h2 : (popInner s mb w nb).2.frame = none := by rw [this]
       rw [pop_none h2, this]; exact h
@@ -710,7 +727,7 @@ theorem emitted_pop_r {s : State} (h : RInv s) (mb w : Nat) (nb : Bool) (hmb : m
       | retransWhole g rest hq h1 h2 => exact ⟨[g], by rw [pop_some h2, h1]; rfl⟩
       | retransSplit g rest hq h1 h2 => exact ⟨_, by rw [pop_some h2, h1]; rfl⟩
       | finOnly h1 h2 => exact ⟨_, by rw [pop_some h2, h1]; rfl⟩
-      | newData f0 s1 hq hlt hok hlen hbuf fin h1 h2 =>
+      | newData f0 s1 hq hlt hok hlen hbuf fin hfin h1 h2 =>
         obtain ⟨nf', dfw', sig', hs1, _⟩ := hok
         subst hs1
         exact ⟨_, by rw [pop_some h2, h1]; rfl⟩
